@@ -47,6 +47,7 @@ def judgeC13 : P Verdict := do
   let dmin ← pNumOpt; let dmean ← pNumOpt; let dvar ← pNumOpt; let dmax ← pNumOpt
   let viaIter ← pNatList
   let viaEdges ← pNatList
+  let edgeIt ← pNatList; let nodeIt ← pNatList; let termIt ← pNatList; let decIt ← pNatList; let revIdx ← pNatList
   let some t := absDump d | return .propfail "dump is not a consistent tree"
   let some s := t.find? start | return .diverge "start node not found"
   let sk : Nat → Nat := fun k => skl.getD k 0
@@ -103,6 +104,22 @@ def judgeC13 : P Verdict := do
   if viaIter != t.preorder.map (·.idx) then return .propfail s!"dfs_iter order {viaIter} vs {t.preorder.map (·.idx)}"
   let edgesRef := (refEdgeK (fun _ => 0) t.idx 0 t.kids 0).1.flatMap (fun e => [e.src, e.label, e.dest])
   if viaEdges != edgesRef then return .propfail s!"dfs_edge_iter {viaEdges} vs {edgesRef}"
+  -- the index-order iterators with values
+  let arena := (t.toArena.toArray.qsort (fun a b => a.idx < b.idx)).toList
+  let valOf : Nat → Nat := fun i => ((arena.find? (·.idx == i)).map (·.val)).getD 0
+  let edgeRef := arena.flatMap (fun nd => match nd.parent with
+    | none => []
+    | some p =>
+      let lab := (((arena.find? (·.idx == p)).map (·.children)).getD []).findIdx (· == some nd.idx)
+      [p, valOf p, lab, nd.idx, nd.val])
+  if edgeIt != edgeRef then return .propfail s!"edge_iter {edgeIt} vs direct {edgeRef}"
+  let nodeRef := arena.flatMap (fun nd => [nd.idx, nd.val])
+  if nodeIt != nodeRef then return .propfail s!"node_iter {nodeIt} vs direct {nodeRef}"
+  let termRef := (arena.filter (·.isleaf)).flatMap (fun nd => [nd.idx, nd.val])
+  if termIt != termRef then return .propfail s!"terminals() {termIt} vs direct {termRef}"
+  let decRef := (arena.filter (fun nd => !nd.isleaf)).flatMap (fun nd => [nd.idx, nd.val])
+  if decIt != decRef then return .propfail s!"decisions() {decIt} vs direct {decRef}"
+  if revIdx != allIdx.reverse then return .propfail s!"node_indices().rev() {revIdx} vs {allIdx.reverse}"
   let depths := t.leafDepths 0
   let dminE : Nat := depths.foldl min (depths.headD 0)
   let dmaxE : Nat := depths.foldl max 0
